@@ -2,7 +2,7 @@
     Only statements here; proofs live in Proofs/Spf*.v.  The model (Model/Spf.v) is the code of
     qsmtpd/spf.c after the fixes in fixes/C11-*.diff; resolver and macro expander are parameters. *)
 From Qv Require Import Common.Bytes Gen.GenSpf Model.SpfBase Model.SpfEnv Model.SpfMacro Model.Spf Model.SpfZone Spec.SpfSpec
-  Proofs.SpfSanitise Proofs.SpfCore Proofs.SpfHeader Proofs.SpfTheorems.
+  Spec.SpfRfc Proofs.SpfSanitise Proofs.SpfCore Proofs.SpfHeader Proofs.SpfTheorems Proofs.SpfRfcWitness.
 
 (** Stage 1.  For every resolver [D] (any functions answering the five resolver entry points: all
     zones, cyclic include/redirect graphs, injected errors), every session [X], every sender domain
@@ -75,6 +75,33 @@ Theorem C11_received_spf_clean : forall X spf g h,
   spfreceived X spf g = Some h -> hdr_ok h = true.
 Proof. exact spfreceived_clean. Qed.
 Print Assumptions C11_received_spf_clean.
+
+(** Stage 3 (only refuted here; what does hold is checked by the correspondence run, not proved).
+    The full statement "for every zone and client the result is the one RFC 7208 prescribes
+    (Spec/SpfRfc.v), wherever that reference gives one" is FALSE of the evaluator: *)
+Theorem C11_rfc_agreement_refuted :
+  ~ (forall D X domain r g, check_host_c D X domain None None = Ok (r, g) ->
+                            rfc_agrees (rfc_check_host D X domain) r = true).
+Proof. exact rfc_agreement_refuted. Qed.
+Print Assumptions C11_rfc_agreement_refuted.
+
+(** one witness per known class of deviation (known_findings: F-C11-2, -10, -11, -12, -13) *)
+Theorem C11_rfc_deviation_witnesses :
+  (result_of (check_host_c w2_zone (w_sess w_v4 []) w_name None None) = Some SPF_PERMERROR
+   /\ rfc_check_host w2_zone (w_sess w_v4 []) w_name = RCode SPF_PASS)
+  /\ (result_of (check_host_c w10_zone (w_sess w_v4 []) w_name None None) = Some SPF_FAIL
+      /\ rfc_check_host w10_zone (w_sess w_v4 []) w_name = RCode SPF_PASS)
+  /\ (result_of (check_host_c w11_zone (w_sess w_v4 []) w_name None None) = Some SPF_FAIL
+      /\ rfc_check_host w11_zone (w_sess w_v4 []) w_name = RCode SPF_PERMERROR)
+  /\ (result_of (check_host_c w12_zone (w_sess w_v4 [114%N]) w_name None None) = Some SPF_TEMPERROR
+      /\ rfc_check_host w12_zone (w_sess w_v4 [114%N]) w_name = RCode SPF_NEUTRAL)
+  /\ (result_of (check_host_c w13_zone (w_sess 42540766411282592856903984951653826561%N []) w_name None None) = Some SPF_PERMERROR
+      /\ rfc_check_host w13_zone (w_sess 42540766411282592856903984951653826561%N []) w_name = RCode SPF_NEUTRAL).
+Proof.
+  exact (conj witness_prefix_below_8 (conj witness_mx_hosts_10 (conj witness_redirect_no_record
+        (conj witness_ptr_dns_error witness_ip6_unspecified)))).
+Qed.
+Print Assumptions C11_rfc_deviation_witnesses.
 
 (** non-vacuity: a record that includes itself is evaluated, 10 terms deep, and fails *)
 Example C11_nonvacuous :
